@@ -18,6 +18,9 @@ import (
 // UNSUBSCRIBE -> UNSUBACK, PINGREQ -> PINGRESP; the response carries the request's packet
 // identifier and SUBACK/UNSUBACK one reason code per filter, in order.
 //
+// Two parts: E2 (sequential histories, below) and E3 (scenario "c07r" further down: the
+// requests race deliveries to the same connection, every interleaving up to a delay bound).
+//
 // E2 scenario "c07" (arg "v=4,n=<pool>" | "v=5,n=<pool>"): one client r of that protocol version.
 // The only hook is the recording hook with an ACL relation that denies everything under
 // topic level "d" (read and write); no hook rejects packets. Ops (pool: N requests):
@@ -280,22 +283,295 @@ func c07Run(arg string) explore.HistFn {
 	}
 }
 
+// ---- E3: requests racing deliveries to the same connection ----
+//
+// DFS scenario "c07r" (arg "v5:<act>+<act>+..." | "v4:..."): client a (that protocol
+// version, persistent session, Receive Maximum 2 for v5) is subscribed to x with QoS 1 and
+// holds one unacknowledged message (broker's outbound id 1); b is a v4 publisher. All
+// packets of the named actions are handed to the connections before the broker runs
+// (several packets of one client arrive in one segment); every interleaving of the
+// broker's threads (a's reader, a's write loop, b's reader, ...) up to the delay bound is
+// executed. The requests of a race the deliveries that b's publishes queue for a's
+// write loop, so two writers compete for a's connection.
+//
+// Oracle, at quiescence after the explored phase, for every client and every interleaving:
+// connection closed, or every request sent in the phase has exactly one response of the
+// required type with its packet identifier in the bytes the broker wrote to that
+// connection (SUBACK, and UNSUBACK for v5: one reason code per filter); no response-type
+// packet without a request. Non-vacuity counters: responses seen before / after the racing
+// delivery on a's connection.
+
+type c07Act struct {
+	who string // "a" | "b"
+	pks []ref.Packet
+}
+
+var c07Acts = map[string]c07Act{
+	"pingA":   {"a", []ref.Packet{{Type: ref.PINGREQ}}},
+	"subA":    {"a", []ref.Packet{sub(3, "y/#", 1)}},
+	"sub2A":   {"a", []ref.Packet{{Type: ref.SUBSCRIBE, PacketID: 5, Filters: []ref.Filter{{Filter: "y/#", Opts: 1}, {Filter: "x/#/bad", Opts: 1}, {Filter: "z", Opts: 0}}}}},
+	"subxA":   {"a", []ref.Packet{sub(6, "x", 1)}}, // re-subscribe to the topic being published
+	"unsubA":  {"a", []ref.Packet{{Type: ref.UNSUBSCRIBE, PacketID: 4, Filters: []ref.Filter{{Filter: "x"}}}}},
+	"unsubzA": {"a", []ref.Packet{{Type: ref.UNSUBSCRIBE, PacketID: 7, Filters: []ref.Filter{{Filter: "zz"}, {Filter: "y/#"}}}}},
+	"pubA2":   {"a", []ref.Packet{pub("x", "n1", 2, 9)}},             // delivered to a itself as well
+	"pubA1":   {"a", []ref.Packet{pub("z", "n2", 1, 8)}},             // no subscriber
+	"pubAs":   {"a", []ref.Packet{pub("$SYS/z", "n3", 1, 10)}},       // refused topic, still acknowledged
+	"relA":    {"a", []ref.Packet{{Type: ref.PUBREL, PacketID: 11}}}, // unknown id
+	"ackA":    {"a", []ref.Packet{{Type: ref.PUBACK, PacketID: 1}}},  // no response required; frees send quota
+	"pubB":    {"b", []ref.Packet{pub("x", "m2", 1, 2)}},
+	"pubB0":   {"b", []ref.Packet{pub("x", "m3", 0, 0)}},
+	"pubB2":   {"b", []ref.Packet{pub("x", "m4", 2, 3)}},
+	"pingB":   {"b", []ref.Packet{{Type: ref.PINGREQ}}},
+}
+
+func c07Shape(p ref.Packet) string {
+	switch p.Type {
+	case ref.PUBLISH:
+		return fmt.Sprintf("publish-qos%d", p.Qos)
+	case ref.PUBREL:
+		return "pubrel"
+	case ref.SUBSCRIBE:
+		return "subscribe"
+	case ref.UNSUBSCRIBE:
+		return "unsubscribe"
+	case ref.PINGREQ:
+		return "pingreq"
+	}
+	return ""
+}
+
+// c07Want: the response type a request requires (0: none).
+func c07Want(p ref.Packet) byte {
+	switch p.Type {
+	case ref.PUBLISH:
+		switch p.Qos {
+		case 1:
+			return ref.PUBACK
+		case 2:
+			return ref.PUBREC
+		}
+	case ref.PUBREL:
+		return ref.PUBCOMP
+	case ref.SUBSCRIBE:
+		return ref.SUBACK
+	case ref.UNSUBSCRIBE:
+		return ref.UNSUBACK
+	case ref.PINGREQ:
+		return ref.PINGRESP
+	}
+	return 0
+}
+
+var c07ResponseTypes = map[byte]bool{ref.PUBACK: true, ref.PUBREC: true, ref.PUBCOMP: true, ref.SUBACK: true, ref.UNSUBACK: true, ref.PINGRESP: true}
+
+// c07Judge compares the requests one client sent in the concurrent phase with what the
+// broker wrote to its connection in that phase.
+func c07Judge(name string, cl *world.Client, reqs []ref.Packet, got []ref.Packet, counters map[string]int) []explore.Violation {
+	var out []explore.Violation
+	if cl.Err != nil {
+		counters["undecodable-output"]++ // C23's subject
+		return nil
+	}
+	if cl.Closed() {
+		counters["closed:"+name]++
+		return nil
+	}
+	add := func(key, f string, a ...any) {
+		out = append(out, explore.Violation{Key: key, Msg: fmt.Sprintf("client %s (v%d): ", name, cl.Ver) + fmt.Sprintf(f, a...)})
+	}
+	used := make([]bool, len(got))
+	firstPub := -1
+	for i, p := range got {
+		if p.Type == ref.PUBLISH && firstPub < 0 {
+			firstPub = i
+		}
+	}
+	for _, rq := range reqs {
+		want := c07Want(rq)
+		if want == 0 {
+			continue
+		}
+		shape := c07Shape(rq)
+		at := -1
+		for i, p := range got {
+			if !used[i] && p.Type == want && (want == ref.PINGRESP || p.PacketID == rq.PacketID) {
+				at = i
+				break
+			}
+		}
+		if at < 0 {
+			add("race:noresponse:"+shape, "%s got no %s with its packet id although the connection stays open; the broker wrote %v", rq, ref.TypeNames[want], got)
+			continue
+		}
+		used[at] = true
+		counters["answered:"+shape]++
+		if firstPub >= 0 {
+			if at < firstPub {
+				counters["response-before-delivery"]++
+			} else {
+				counters["response-after-delivery"]++
+			}
+		}
+		ack := got[at]
+		switch {
+		case want == ref.SUBACK && len(ack.ReasonCodes) != len(rq.Filters):
+			add("race:suback:code-count", "%s: SUBACK has %d reason codes for %d filters: %v", rq, len(ack.ReasonCodes), len(rq.Filters), ack)
+		case want == ref.UNSUBACK && cl.Ver == 5 && len(ack.ReasonCodes) != len(rq.Filters):
+			add("race:unsuback:code-count", "%s: UNSUBACK has %d reason codes for %d filters: %v", rq, len(ack.ReasonCodes), len(rq.Filters), ack)
+		}
+		if want == ref.SUBACK && len(ack.ReasonCodes) == len(rq.Filters) {
+			for i, fl := range rq.Filters {
+				if !ref.ValidFilter(fl.Filter) && ack.ReasonCodes[i] < 0x80 {
+					add("race:suback:success-for-refused-filter", "%s: filter #%d %q must be refused but its reason code is %#x (codes %x)", rq, i, fl.Filter, ack.ReasonCodes[i], ack.ReasonCodes)
+				}
+				if ref.ValidFilter(fl.Filter) && ack.ReasonCodes[i] < 0x80 && ack.ReasonCodes[i] > fl.Opts&3 {
+					add("race:suback:granted-above-requested", "%s: filter #%d %q granted %#x above requested %d (codes %x)", rq, i, fl.Filter, ack.ReasonCodes[i], fl.Opts&3, ack.ReasonCodes)
+				}
+			}
+		}
+	}
+	for i, p := range got {
+		if c07ResponseTypes[p.Type] && !used[i] {
+			add("race:stray-response:"+ref.TypeNames[p.Type], "%v was written without a request it answers (requests %v, output %v)", p, reqs, got)
+		}
+	}
+	return out
+}
+
+func c07RunDFS(arg string) explore.RunFn {
+	ver := byte(5)
+	if strings.HasPrefix(arg, "v4:") {
+		ver = 4
+	}
+	acts := splitActs(arg[strings.Index(arg, ":")+1:])
+	return func(prefix []int) explore.Outcome {
+		w := world.New(prefix, world.Config{})
+		defer w.End()
+		w.Serve()
+		w.Run()
+		dial := func(p ref.Packet) *world.Client {
+			c := w.Dial()
+			cl := &world.Client{W: w, C: c, Ver: p.ProtoVer, ID: p.ClientID}
+			c.Send(ref.Encode(p, p.ProtoVer, ref.EncOpts{}))
+			w.Run()
+			return cl
+		}
+		ca := world.ConnectPacket("a", 4, false)
+		if ver == 5 {
+			ca = v5connect("a", false, 2, 60)
+		}
+		cls := map[string]*world.Client{"a": dial(ca), "b": dial(world.ConnectPacket("b", 4, true))}
+		cls["a"].Do(sub(1, "x", 1))
+		cls["b"].Do(pub("x", "m1", 1, 1))
+		names := []string{"a", "b"}
+		base := map[string]int{}
+		for _, n := range names {
+			cls[n].Poll()
+			base[n] = len(cls[n].Recv)
+		}
+		reqs := map[string][]ref.Packet{}
+		for _, a := range acts {
+			act, ok := c07Acts[a]
+			if !ok {
+				panic("c07r: unknown action " + a)
+			}
+			for _, p := range act.pks {
+				cls[act.who].Send(p)
+				reqs[act.who] = append(reqs[act.who], p)
+			}
+		}
+		w.Explore(true)
+		w.Run()
+		w.Explore(false)
+		o := explore.Outcome{Points: w.X.Points, Divergence: w.X.Divergence(), Steps: w.X.Steps(), Counters: map[string]int{}}
+		o.Viol = runtimeViolations(w)
+		var obs strings.Builder
+		for _, n := range names {
+			cl := cls[n]
+			cl.Poll()
+			got := cl.Recv[base[n]:]
+			o.Viol = append(o.Viol, c07Judge(n, cl, reqs[n], got, o.Counters)...)
+			fmt.Fprintf(&obs, "%s(closed=%v):%v; ", n, cl.Closed(), got)
+		}
+		o.Obs = obs.String()
+		return o
+	}
+}
+
+// c07Races: request-vs-delivery races. Quick tier: the first group under PB<=2.
+var c07RacesQuick = []string{
+	"v5:pingA+pubB", "v5:subA+pubB", "v5:unsubA+pubB", "v5:pubA2+pubB", "v5:pubA1+pubB0",
+	"v5:pingA+subA+pubB+pubB0", "v4:pingA+pubB", "v4:sub2A+pubB0",
+}
+
+var c07RacesThorough = []string{
+	"v5:ackA+pubB", "v5:sub2A+pubB", "v5:subxA+pubB", "v5:unsubzA+pubB0", "v5:pubAs+pubB", "v5:relA+pubB", "v5:pingA+pubB2", "v5:pingA+pubB0",
+	"v5:pubA1+unsubA+pubB+pubB0", "v5:pingA+ackA+pubB", "v5:pingA+pingB+pubB",
+	"v4:subA+pubB", "v4:unsubA+pubB", "v4:pubA2+pubB", "v4:relA+pubB0", "v4:pingA+subA+pubB+pubB0",
+}
+
 func init() {
 	explore.RegisterBFS("c07", c07Run)
+	explore.RegisterDFS("c07r", c07RunDFS)
 	explore.Register("C07", func(c *explore.Ctx) {
 		c.Rep.Level = "model_checking"
 		c.Rep.Assumption("one request at a time, broker run to quiescence under the deterministic default schedule (sequential histories)")
 		c.Rep.Assumption("state = reflective dump of *Server plus reference-model state; two histories are merged only if byte-identical")
 		c.Rep.Assumption("no hook rejects packets; the ACL relation denies read and write below topic level 'd'")
+		c.Rep.Assumption("E3 part (c07r): threads are serialised by the cooperative scheduler (sequentially consistent interleavings only); every interleaving up to the stated delay bound; scheduling points as in C32")
+		// E3 first: it is small (a cap of a few seconds per scenario, PB<=2 needs about a second)
+		// and must not be starved by the history search on a loaded machine.
+		c07Races(c)
 		if c.Quick() {
 			explore.RunBFS(c, "c07", "v=5,n=5", 0, 35*time.Second)
 			explore.RunBFS(c, "c07", "v=4,n=5", 0, 35*time.Second)
 		} else {
-			explore.RunBFS(c, "c07", "v=5,n=7", 0, 5*time.Minute+30*time.Second)
-			explore.RunBFS(c, "c07", "v=4,n=7", 0, 5*time.Minute+30*time.Second)
+			// the two history searches share what the race scenarios left of the tier's budget
+			b := 5*time.Minute + 30*time.Second
+			if half := (c.Left() - 10*time.Second) / 2; half < b {
+				b = half
+			}
+			explore.RunBFS(c, "c07", "v=5,n=7", 0, b)
+			explore.RunBFS(c, "c07", "v=4,n=7", 0, b)
 		}
 		c07NonVacuity(c)
 	})
+}
+
+// c07Races runs the request-vs-delivery race scenarios (E3) and checks their non-vacuity:
+// over the scenarios explored to PB>=2 a response must have been seen both before and
+// after the racing delivery on the same connection.
+func c07Races(c *explore.Ctx) {
+	scen := append([]string{}, c07RacesQuick...)
+	// One pass with delay bound 2 (it contains the executions of bounds 0 and 1): every pass
+	// starts c.Workers processes, and the passes for the smaller bounds would cost more than
+	// the exploration itself.
+	bounds := []explore.Bounds{{Preempt: 2}}
+	per := 6 * time.Second
+	if !c.Quick() {
+		scen = append(scen, c07RacesThorough...)
+		bounds = append(bounds, explore.Bounds{Preempt: 3})
+		per = 6 * time.Second
+	}
+	var before, after int64
+	deep := 0
+	for _, s := range scen {
+		if c.Expired() {
+			c.Rep.Capped("scenario c07r:" + s + " not started (deadline)")
+			continue
+		}
+		done, st := explore.IterateDFS(c, "c07r", s, bounds, per)
+		if done != nil && done.Preempt >= 2 && st != nil {
+			deep++
+			before += st.Counters["response-before-delivery"]
+			after += st.Counters["response-after-delivery"]
+		}
+	}
+	c.Rep.Count("c07r_response_before_delivery", before)
+	c.Rep.Count("c07r_response_after_delivery", after)
+	if deep > 0 && (before == 0 || after == 0) {
+		c.Rep.Add(explore.Violation{Key: "internal:c07r-vacuous", Msg: fmt.Sprintf("the race scenarios never produced both orders of response and delivery on one connection (before=%d after=%d over %d scenarios)", before, after, deep)})
+	}
 }
 
 // c07NonVacuity folds the scenario counters into the report and requires that every
